@@ -1244,7 +1244,11 @@ func (sc *serverConn) wroteFrame(res frameWriteResult) {
 				sc.closeStream(st, v)
 			}
 		case handlerPanicRST:
-			sc.closeStream(wr.stream, errHandlerPanicked)
+			// The stream may have been closed (by an RST_STREAM from the peer)
+			// while this frame was being written.
+			if st, ok := sc.streams[v.StreamID]; ok {
+				sc.closeStream(st, errHandlerPanicked)
+			}
 		}
 	}
 
